@@ -27,6 +27,6 @@ def keep(c):
 def finding_key(c, r):
     return None
 
-LEVEL_TEXT = "placeholder"
-LEVEL_NOTE = "placeholder"
+LEVEL_TEXT = "Theorems (Props/C07.v): enabling typo tolerance never changes a non-empty answer; every fallback result is an eligible entry the matcher accepted with quality >= the requested threshold, best first, at most the limit, no duplicates; with no threshold an eligible accepted entry is never left without a result. Tied by the engine correspondence (fuzzy on/off pairs); 'the query's characters occur in order' is evaluated in Coq on every real fallback answer."
+LEVEL_NOTE = 'Partial: sahilm/fuzzy is an oracle (raw scores per entry fed to the model); its subsequence property is checked per case, not proved. Trusted: Coq kernel; harness.'
 TECHNIQUE = "Coq proof over the engine model + differential correspondence (vm_compute, bit-exact scores)"
